@@ -95,6 +95,11 @@ class Concrete:
                 o["lat"] = m["lat"] * self.latp[0] + self.latp[1]
         elif m["t"] == "w":
             o["refs"] = [self.id(r) for r in m["refs"]]
+            # location of every referenced node ([lon, lat], the same value map as node coordinates); None = undefined
+            locs = m.get("locs", [])
+            if locs and len(locs) != len(m["refs"]):
+                raise ValueError("way with locations for some of its node references only")
+            o["locs"] = [[x * self.lonp[0] + self.lonp[1], y * self.latp[0] + self.latp[1]] for x, y in locs] or [None] * len(m["refs"])
         else:
             o["mems"] = [[x["mt"], self.id(x["ref"]), self.string(x["role"])] for x in m["mems"]]
         return o
@@ -326,6 +331,23 @@ def features(case):
                 f.add("pbf grp order=" + st["order"])
                 f.add("pbf grp unk=%s" % st["unk"])
                 f.add("pbf grp lenpad=%s" % st["lenpad"])
+        # ways that carry node locations, and the parameters of the block they are written into
+        blk = None
+        for st in steps:
+            if st["a"] == "blk":
+                blk = st
+            elif st["a"] == "obj" and case["exp"][st["i"]].get("locs"):
+                f.add("pbf way locations")
+                offs = blk["lato"] != 0 and blk["lono"] != 0
+                f.add("pbf way locations gran=%d" % blk["gran"])
+                if blk["lato"] != 0 or blk["lono"] != 0:
+                    f.add("pbf way locations lat_offset or lon_offset != 0")
+                if offs and blk["gran"] % 100 != 0:
+                    f.add("pbf way locations both offsets != 0 and granularity not a multiple of 100")
+                if len(case["exp"][st["i"]]["locs"]) >= 3:
+                    f.add("pbf way locations of 3+ nodes")
+            elif st["a"] == "obj" and case["exp"][st["i"]]["t"] == "w" and "pbf way locations" in f:
+                f.add("pbf way without locations after a way with locations")
         ngrp = [0]
         for st in steps:
             if st["a"] == "blk":
